@@ -474,6 +474,21 @@ pub fn c13_scenario(seed: u64, idx: u64) -> Scenario {
         };
         sc.owner_ops.push(OwnerOp { before_phase: rng.range(1, n - 1) as u32, kind: kind.into(), path });
     }
+    // platform facts: files with the modes deployments have (group- and world-writable among them),
+    // a standard output that has gone away (closed pipe, full volume: code that falls back to a log
+    // *file* then writes into the tree), a short docroot path, a server user who owns nothing
+    if rng.chance(1, 4) {
+        sc.tree.meta_mode = rng.range(1, 3) as u8;
+    }
+    if rng.chance(1, 5) {
+        sc.yields.push("stdout_gone".into());
+    }
+    if rng.chance(1, 8) {
+        sc.yields.push("short_docroot".into());
+    }
+    if rng.chance(1, 8) {
+        sc.yields.push("other_user".into());
+    }
     sc
 }
 
